@@ -2254,6 +2254,209 @@ theorem grid_self_sets :
 
 end GenTies
 
+/-! ## Flex: 9.7 fills the line whatever the number of passes -/
+
+/-- `flex_fill_pass` for a pass in the middle of the loop: `f` is the (scaled) initial free space
+carried by the loop; the `int(log10 ·)` test must not replace the remaining free space by it. -/
+theorem flex_fill_pass_any (row grow : Bool) (avail gap : Rat) (line : List St) (f : Rat)
+    (hmag : magLt (magnitude f) (magnitude (freeSpace avail gap line)) = false)
+    (hufs : unfrozenFactorSum line ≥ 1)
+    (hfactor : ∀ s ∈ line, s.frozen = false → s.factor = if grow then s.it.grow else s.it.shrink)
+    (hden : grow = false → scaledShrinkSum line ≠ 0)
+    (hclamp : ∀ s ∈ line, s.frozen = false →
+      NotClamped row s (share grow (freeSpace avail gap line) (growSum line) (scaledShrinkSum line) s)) :
+    ∃ line', pass row grow avail gap line f = .ok (line', f) ∧
+      allFrozen line' = true ∧ freeSpace avail gap line' = 0 := by
+  obtain ⟨line', hp, hall, hfree⟩ :=
+    flex_fill_pass row grow avail gap line (freeSpace avail gap line) rfl hufs hfactor hden hclamp
+  refine ⟨line', ?_, hall, hfree⟩
+  have hnot : ¬ (unfrozenFactorSum line < 1) := Rat.not_lt.mpr hufs
+  have h1 : remainingFree avail gap line f = (f, freeSpace avail gap line) := by
+    unfold remainingFree
+    simp only [hnot, if_false, hmag, Bool.false_eq_true]
+  have h2 : remainingFree avail gap line (freeSpace avail gap line) =
+      (freeSpace avail gap line, freeSpace avail gap line) := by
+    unfold remainingFree
+    simp only [hnot, if_false, magLt_irrefl, Bool.false_eq_true]
+  unfold pass at hp ⊢
+  rw [h2] at hp
+  rw [h1]
+  simp only [] at hp ⊢
+  cases hd : distribute grow (freeSpace avail gap line) line with
+  | error e => simp [hd] at hp
+  | ok l =>
+    simp only [hd] at hp ⊢
+    cases hp
+    rfl
+
+/-- states of the `while` loop reachable from `(line, f)` -/
+inductive Reach (row grow : Bool) (avail gap : Rat) : List St → Rat → List St → Rat → Prop
+  | refl (l : List St) (f : Rat) : Reach row grow avail gap l f l f
+  | step {l l1 l2 : List St} {f f1 f2 : Rat} (hnot : allFrozen l = false)
+      (hp : pass row grow avail gap l f = .ok (l1, f1)) (h : Reach row grow avail gap l1 f1 l2 f2) :
+      Reach row grow avail gap l f l2 f2
+
+/-- Whatever the number of passes, the result of the loop is the output of one last pass. -/
+theorem loop_last_pass (row grow : Bool) (avail gap : Rat) :
+    ∀ (fuel : Nat) (line res : List St) (f : Rat),
+      loop row grow avail gap fuel line f = .ok res → allFrozen line = false →
+      ∃ l' f' f'', Reach row grow avail gap line f l' f' ∧ allFrozen l' = false ∧
+        pass row grow avail gap l' f' = .ok (res, f'') := by
+  intro fuel
+  induction fuel with
+  | zero =>
+    intro line res f h hnot
+    unfold loop at h
+    simp [hnot] at h
+  | succ n ih =>
+    intro line res f h hnot
+    unfold loop at h
+    simp only [hnot, Bool.false_eq_true, if_false] at h
+    cases hp : pass row grow avail gap line f with
+    | error e => simp [hp] at h
+    | ok r =>
+      obtain ⟨l1, f1⟩ := r
+      simp only [hp] at h
+      cases hall : allFrozen l1 with
+      | true =>
+        have : res = l1 := by
+          cases n <;> (unfold loop at h; simp [hall] at h; exact h.symm)
+        subst this
+        exact ⟨line, f, f1, .refl _ _, hnot, hp⟩
+      | false =>
+        obtain ⟨l', f', f'', hr, hn', hp'⟩ := ih l1 res f1 h hall
+        exact ⟨l', f', f'', .step hnot hp hr, hn', hp'⟩
+
+/-- the factor chosen in 9.7.3 is kept by every pass -/
+private theorem pass_factor (row grow : Bool) (avail gap : Rat) (line line' : List St) (f f' : Rat)
+    (hp : pass row grow avail gap line f = .ok (line', f'))
+    (h : ∀ s ∈ line, s.factor = if grow then s.it.grow else s.it.shrink) :
+    ∀ s ∈ line', s.factor = if grow then s.it.grow else s.it.shrink := by
+  -- every element of `line'` is the image of an element of `line` with the same `factor` and `it`
+  have key : line'.map (fun s => (s.factor, s.it.grow, s.it.shrink)) =
+      line.map (fun s => (s.factor, s.it.grow, s.it.shrink)) := by
+    unfold pass at hp
+    split at hp
+    · cases hp
+    · rename_i l1 hdist
+      cases hp
+      unfold finishPass
+      simp only [List.map_map]
+      have h1 : l1.map (fun s => (s.factor, s.it.grow, s.it.shrink)) =
+          line.map (fun s => (s.factor, s.it.grow, s.it.shrink)) := by
+        unfold distribute at hdist
+        split at hdist
+        · cases hdist
+          rw [List.map_map]
+          apply List.map_congr_left
+          intro s _
+          simp only [Function.comp, setBase]
+          split <;> rfl
+        · refine mapExcept_proj _ (fun s => (s.factor, s.it.grow, s.it.shrink))
+            (fun s => (s.factor, s.it.grow, s.it.shrink)) ?_ _ _ hdist
+          intro x y hxy
+          unfold distributeOne at hxy
+          split at hxy
+          · cases hxy; rfl
+          · split at hxy
+            · split at hxy
+              · cases hxy
+              · cases hxy; rfl
+            · split at hxy <;> (cases hxy; rfl)
+      rw [← h1]
+      apply List.map_congr_left
+      intro s _
+      simp only [Function.comp]
+      have e1 : (fixMin row s).factor = s.factor ∧ (fixMin row s).it = s.it := by
+        unfold fixMin
+        split
+        · exact ⟨rfl, rfl⟩
+        · simp only []; split <;> exact ⟨rfl, rfl⟩
+      have e2 : ∀ a (t : St), (freezeOne a t).factor = t.factor ∧ (freezeOne a t).it = t.it := by
+        intro a t
+        unfold freezeOne
+        split
+        · exact ⟨rfl, rfl⟩
+        · split
+          · exact ⟨rfl, rfl⟩
+          · split <;> exact ⟨rfl, rfl⟩
+      rw [(e2 _ _).1, (e2 _ _).2, e1.1, e1.2]
+  intro s hs
+  have hmem : (s.factor, s.it.grow, s.it.shrink) ∈ line.map (fun s => (s.factor, s.it.grow, s.it.shrink)) := by
+    rw [← key]; exact List.mem_map.mpr ⟨s, hs, rfl⟩
+  obtain ⟨t, ht, heq⟩ := List.mem_map.mp hmem
+  have := h t ht
+  simp only [Prod.mk.injEq] at heq
+  rw [← heq.1, ← heq.2.1, ← heq.2.2]; exact this
+
+private theorem reach_factor (row grow : Bool) (avail gap : Rat) (l l' : List St) (f f' : Rat)
+    (hr : Reach row grow avail gap l f l' f')
+    (h : ∀ s ∈ l, s.factor = if grow then s.it.grow else s.it.shrink) :
+    ∀ s ∈ l', s.factor = if grow then s.it.grow else s.it.shrink := by
+  induction hr with
+  | refl => exact h
+  | step _ hp _ ih => exact ih (pass_factor _ _ _ _ _ _ _ _ hp h)
+
+/-- `flex_fill` for every number of passes (the part of the full statement that holds of the
+code): run the 9.7.5 loop on a line prepared by 9.7.3; however many passes freeze items on their
+main-axis minimum (9.7.5.d–e), if the pass that freezes the last items distributes the free space
+without `min_max` touching a share (`hlast`: factor sum ≥ 1, magnitude test inactive, non-zero
+denominators, shares not clamped), the line is exactly filled:
+`Σ target + Σ outer extra + (n − 1)·gap = available main size`.
+The clamp inside 9.7.5.c (`Witness.C12.clamp_no_redistribute`) is the only way to lose space. -/
+theorem flex_fill_all_passes (row grow : Bool) (avail gap : Rat) (fuel : Nat) (line res : List St) (f : Rat)
+    (hfactor : ∀ s ∈ line, s.factor = if grow then s.it.grow else s.it.shrink)
+    (hloop : loop row grow avail gap fuel line f = .ok res) (hnot : allFrozen line = false) :
+    ∃ l' f', Reach row grow avail gap line f l' f' ∧ allFrozen l' = false ∧
+      (magLt (magnitude f') (magnitude (freeSpace avail gap l')) = false →
+       unfrozenFactorSum l' ≥ 1 →
+       (grow = false → scaledShrinkSum l' ≠ 0) →
+       (∀ s ∈ l', s.frozen = false →
+          NotClamped row s (share grow (freeSpace avail gap l') (growSum l') (scaledShrinkSum l') s)) →
+       allFrozen res = true ∧ freeSpace avail gap res = 0) := by
+  obtain ⟨l', f', f'', hr, hn', hp'⟩ := loop_last_pass row grow avail gap fuel line res f hloop hnot
+  refine ⟨l', f', hr, hn', ?_⟩
+  intro hmag hufs hden hclamp
+  have hfac := reach_factor _ _ _ _ _ _ _ _ hr hfactor
+  obtain ⟨line', hp, hall, hfree⟩ := flex_fill_pass_any row grow avail gap l' f' hmag hufs
+    (fun s hs _ => hfac s hs) hden hclamp
+  rw [hp'] at hp
+  cases hp
+  exact ⟨hall, hfree⟩
+
+/-! ## Flex: step 9, `align-content: stretch` -/
+
+private theorem sumBy_cross_add (e : Rat) (ls : List Line) :
+    sumBy Line.cross (ls.map fun l => { l with cross := l.cross + e }) = sumBy Line.cross ls + (ls.length : Rat) * e := by
+  induction ls with
+  | nil => simp [sumBy]; grind
+  | cons l rest ih =>
+    simp only [List.map_cons, sumBy, ih, List.length_cons]
+    push_cast
+    grind
+
+/-- `align`, multi-line: with `align-content: stretch` (or `normal`) and a definite cross size, the
+lines are stretched so that lines and cross gaps fill the container's cross size exactly. -/
+theorem stretch_lines_fill (c : Container) (ls : List Line) (d : Rat) (hne : ls ≠ [])
+    (hac : (c.alignContent == .normal || c.alignContent == .stretch) = true)
+    (hd : crossDefinite c = some d) :
+    crossSum c.crossGap (stretchLines c ls) = d := by
+  unfold stretchLines
+  simp only [hac, if_true, hd]
+  by_cases hz : (d - crossSum c.crossGap ls != 0) = true
+  · simp only [hz, if_true]
+    unfold crossSum
+    rw [sumBy_cross_add, List.length_map]
+    have hn : (ls.length : Rat) ≠ 0 := by
+      have : ls.length ≠ 0 := by cases ls <;> simp_all
+      exact_mod_cast this
+    have := Rat.div_mul_cancel (a := d - (sumBy Line.cross ls + c.crossGap * (((ls.length : Int) - 1 : Int) : Rat))) hn
+    unfold crossSum at this
+    grind
+  · simp only [hz, Bool.false_eq_true, if_false]
+    have : d - crossSum c.crossGap ls = 0 := by simpa using hz
+    grind
+
 /-! ## Non-vacuity: the hypotheses of the theorems above are met by concrete, non-trivial inputs -/
 
 section Examples
@@ -2360,6 +2563,22 @@ example :
     let c : Container := { exContainer .normal with reverse := true }
     let items := [exItem 0 1 0 1 10, exItem 1 0 0 1 10, exItem 2 1 0 1 10]
     (layout c items).toOption.map (fun r => r.rects.map (·.id)) = some [2, 0, 1] := by decide +kernel
+
+-- flex_fill_all_passes: column container of 100px, `flex: 1 1 0; min-height: 60px` and `flex: 1 1 0`:
+-- the first pass freezes the first item on its minimum, the second pass gives the rest to the other: 60 + 40
+example :
+    let line := step3 false [{ exItem 0 0 1 1 0 with sMinH := some 60 }, exItem 1 0 1 1 0] 0 0
+    let l0 := line.map (sizeInflexible (decide (lineHypSum 0 line < 100)))
+    allFrozen l0 = false ∧
+    ((pass false true 100 0 l0 (freeSpace 100 0 l0)).toOption.map (fun r => unfrozenCount r.1)) = some 1 ∧
+    (resolveLine false 100 0 line).toOption.map (List.map (·.target)) = some [60, 40] := by
+  decide +kernel
+
+-- stretch_lines_fill: two lines of 10 and 30 in a 100px high wrapping row container with a 4px row gap
+example :
+    let c : Container := { exContainer .normal with wrap := .wrap, height := some 100, crossGap := 4 }
+    let ls : List Line := [{ items := [], cross := 10 }, { items := [], cross := 30 }]
+    crossDefinite c = some 100 ∧ (stretchLines c ls).map (·.cross) = [38, 58] := by decide +kernel
 
 end Examples
 
